@@ -5,6 +5,7 @@ import (
 	"flag"
 	"fmt"
 	"math/rand"
+	"reflect"
 	"strings"
 	"time"
 
@@ -213,6 +214,30 @@ func typesMain(args []string) error {
 			bad = append(bad, fmt.Sprintf("%.40q...: %s", s, pan))
 		}
 		count++
+	}
+	// unknown wrappers spelled like identifiers the library itself uses: every exported method name of an inferred
+	// column, applied to that column's own type (and nested once)
+	for _, el := range []string{"Int8", "String", "DateTime", "DateTime64(3)", "Decimal(9, 2)", "FixedString(4)", "Enum8('a' = 1)", "UUID",
+		"Array(Int8)", "Nullable(String)", "LowCardinality(String)", "Map(String, Int8)", "Tuple(Int8, String)", "Bool", "IPv4", "Date32"} {
+		var c proto.ColAuto
+		if err := c.Infer(proto.ColumnType(el)); err != nil || c.Data == nil {
+			continue
+		}
+		rt := reflect.TypeOf(c.Data)
+		names := []string{"Infer", "Data", "DataType", "Type", "Reset"}
+		for m := 0; m < rt.NumMethod(); m++ {
+			names = append(names, rt.Method(m).Name)
+		}
+		for _, nm := range names {
+			for _, str := range []string{nm + "(" + el + ")", "Array(" + nm + "(" + el + "))", nm + "(" + nm + "(" + el + "))", nm + "(" + el + ", " + el + ")", nm} {
+				if count%*nshard == *shard {
+					if _, _, pan := inferCheck(str); pan != "" && len(bad) < 20 {
+						bad = append(bad, fmt.Sprintf("%q: %s", str, pan))
+					}
+				}
+				count++
+			}
+		}
 	}
 	for i := 0; i < 20000; i++ {
 		b := make([]byte, rng.Intn(24))
